@@ -6,7 +6,9 @@
      defines tinyjambu_permutation_N, and it is the intended one."""
 import glob, json, os, re, subprocess, sys, tempfile
 
-REPO, BACKEND = '/repo', '/repo/src/backend'
+import os as _os
+REPO = _os.environ.get('VERIF_REPO', '/repo')
+BACKEND = REPO + '/src/backend'
 HERE = os.path.dirname(os.path.abspath(__file__))
 CFLAGS = ['-g', '-Wall', '-Wextra', '-Wno-unused-parameter']      # COMMON_CFLAGS of tools/common/options.mak + Makefile
 # name -> (macros, TINYJAMBU_BACKEND_* expected, file stem expected to define the permutation)
